@@ -16,7 +16,9 @@ RULE = ("Scores / a Scores subclass overriding tpr / GroupScores (2-3 groups) wi
         "(tpr, fpr, fnr, tnr, eer, group_tpr, group_fpr) and callables with scalar / vector / matrix / integer output and "
         "kwargs (threshold scalar or array, a defaulted scale factor); custom deterministic counting samplers (shift by "
         "the call index, leave-one-out, identity), built-in samplers (replacement, single_pass, dynamic, proportion; "
-        "stratified none / by_label / by_group) under np.random.seed; all three bootstrap methods.  A case is "
+        "stratified none / by_label / by_group; smoothing on Scores and, expecting the documented ValueError, on GroupScores) "
+        "under np.random.seed; all three bootstrap methods; histories of 2-3 calls on one object with the same metric and "
+        "kwarg names but other values (scalar and array thresholds).  A case is "
         "non-trivial when the replicate rows are not all equal, or the sampler is the identity with >= 2 samples")
 TRUSTED = [
     "getattr(type(self), name) = first hit along the class chain [type(self), bases...] (modelled: lookup_mro)",
@@ -122,6 +124,9 @@ def _one_case(rng, k, force=None):
             strat = None if sm == "proportion" else rng.choice([None, "by_label"])
         sampler = {"type": "builtin", "sampling_method": sm, "stratified": strat, "ratio": 0.5 if sm == "proportion" else None,
                    "seed": rng.randint(0, 10 ** 6)}
+        # smoothing: replacement sampling + kernel noise on Scores; documented ValueError on GroupScores
+        if sm in ("replacement", "dynamic") and rng.random() < 0.35:
+            sampler["smoothing"] = True
         if sm == "single_pass" and metric.get("name") == "eer":
             metric = {"type": "name", "name": "tpr", "kwargs": {"threshold": thr_enc}}
     sampler = force.get("sampler", sampler)
@@ -133,11 +138,24 @@ def _one_case(rng, k, force=None):
     case["nb_samples"] = force.get("nb_samples", rng.choice([1, 2, 3, 5, 8, 12]))
     case["bootstrap_method"] = force.get("bootstrap_method", C13.METHODS[k % 3])
     case["alpha"] = enc(Fraction(rng.choice(ALPHAS)))
+    # history: further calls on the SAME object with the same metric and kwarg names but other values
+    # (scalar -> scalar -> array threshold, another scale)
+    more = []
+    if "threshold" in metric["kwargs"] and metric.get("id") not in ("rates_vec", "counts_mat") and rng.random() < force.get("history", 0.3):
+        more.append(dict(metric["kwargs"], threshold=enc(_threshold(rng, pool))))
+        if rng.random() < 0.6:
+            more.append(dict(metric["kwargs"], threshold=[enc(_threshold(rng, pool)) for _ in range(rng.choice([1, 2]))]))
+    elif metric.get("id") == "rates_vec" and rng.random() < force.get("history", 0.3):
+        kw2 = dict(metric["kwargs"], threshold=enc(_threshold(rng, pool)))
+        if "scale" in kw2:
+            kw2["scale"] = enc(F(kw2["scale"]) + 1)
+        more.append(kw2)
+    case["more_kwargs"] = more
     return case
 
 
 def gen_cases(rng, tier):
-    n = {"quick": 220, "thorough": 3000, "search": 1500}[tier]
+    n = {"quick": 180, "thorough": 2600, "search": 1300}[tier]
     cases = []
     k = 0
     # aimed cases: identity collapse for every method; subclass override by name; group-wise names; big object (dynamic -> single pass)
@@ -150,6 +168,16 @@ def gen_cases(rng, tier):
         k += 1
         cases.append(_one_case(rng, k, {"kind": "group", "bootstrap_method": m,
                                         "metric": {"type": "name", "name": "group_tpr", "kwargs": {"threshold": enc(Fraction(0))}}}))
+        k += 1
+    # smoothing on Scores (rows come from smoothed samples) and on GroupScores (must raise like bootstrap_sample); histories
+    for kind_, sm_, m_ in (("scores", "replacement", "bca"), ("scores", "dynamic", "quantile"), ("group", "replacement", "bc")):
+        cases.append(_one_case(rng, k, {"kind": kind_, "bootstrap_method": m_,
+                                        "sampler": {"type": "builtin", "sampling_method": sm_, "stratified": None, "ratio": None,
+                                                    "seed": rng.randint(0, 10 ** 6), "smoothing": True}}))
+        k += 1
+    for m_ in ("bc", "bca"):
+        cases.append(_one_case(rng, k, {"kind": "scores", "bootstrap_method": m_, "history": 1.0, "nb_samples": 8,
+                                        "metric": {"type": "name", "name": "fnr", "kwargs": {"threshold": enc(Fraction(1, 2))}}}))
         k += 1
     big = _one_case(rng, k, {"kind": "scores", "sampler": {"type": "builtin", "sampling_method": "dynamic", "stratified": None,
                                                             "ratio": None, "seed": 7},
@@ -165,9 +193,9 @@ def gen_cases(rng, tier):
 
 
 # ------------------------------------------------------------------ implementation
-def _kwargs(case, np):
+def _kwargs_of(kwd, np):
     kw = {}
-    for key, v in case["metric"]["kwargs"].items():
+    for key, v in kwd.items():
         if isinstance(v, list):
             kw[key] = np.array([fl(x) for x in v], dtype=float)
         else:
@@ -187,12 +215,14 @@ def run_impl(case):
 
     pos = np.array([fl(x) for x in case["pos"]], dtype=float)
     neg = np.array([fl(x) for x in case["neg"]], dtype=float)
-    if case["kind"] == "group":
-        obj = GroupScores(pos=pos, neg=neg, pos_groups=np.array(case["pos_groups"]), neg_groups=np.array(case["neg_groups"]),
-                          score_class=case["sc"], equal_class=case["ec"])
-    else:
+
+    def make_obj():
+        if case["kind"] == "group":
+            return GroupScores(pos=pos.copy(), neg=neg.copy(), pos_groups=np.array(case["pos_groups"]),
+                               neg_groups=np.array(case["neg_groups"]), score_class=case["sc"], equal_class=case["ec"])
         cls = TaggedScores if case["kind"] == "sub" else Scores
-        obj = cls(pos=pos, neg=neg, nb_easy_pos=case["ep"], nb_easy_neg=case["en"], score_class=case["sc"], equal_class=case["ec"])
+        return cls(pos=pos.copy(), neg=neg.copy(), nb_easy_pos=case["ep"], nb_easy_neg=case["en"],
+                   score_class=case["sc"], equal_class=case["ec"])
 
     def rebuild(src, p, n, pg=None, ng=None):
         if isinstance(src, GroupScores):
@@ -211,13 +241,6 @@ def run_impl(case):
     }
     m = case["metric"]
     metric = m["name"] if m["type"] == "name" else callables[m["id"]]
-    kwargs = _kwargs(case, np)
-
-    def direct(sample):
-        if m["type"] == "name":
-            return np.asarray(getattr(sample, m["name"])(**kwargs))   # the metric `name` of that object
-        return np.asarray(metric(sample, **kwargs))
-
     sp = case["sampler"]
 
     class Counting:
@@ -241,7 +264,8 @@ def run_impl(case):
     def make_config():
         if sp["type"] == "builtin":
             return None, BootstrapConfig(nb_samples=case["nb_samples"], bootstrap_method=case["bootstrap_method"],
-                                         sampling_method=sp["sampling_method"], stratified_sampling=sp["stratified"], ratio=sp["ratio"])
+                                         sampling_method=sp["sampling_method"], stratified_sampling=sp["stratified"],
+                                         ratio=sp["ratio"], smoothing=bool(sp.get("smoothing", False)))
         if sp["type"] == "bad":
             return None, BootstrapConfig(nb_samples=case["nb_samples"], bootstrap_method=case["bootstrap_method"],
                                          sampling_method=sp["value"])
@@ -252,90 +276,143 @@ def run_impl(case):
         a = np.asarray(a, dtype=float)
         return [enc(float(v)) for v in a.reshape(-1)]
 
-    def run(which):
-        counter, cfg = make_config()
-        samples = []
+    def session(obj, kwd, full):
+        """one bootstrap_metric + one bootstrap_ci call on obj with the kwargs kwd; everything observed by pass-through
+        wrappers.  full: also the replay / repeat / fresh-object runs."""
+        kwargs = _kwargs_of(kwd, np)
 
-        def rec_sample(config):
-            s = type(obj).bootstrap_sample(obj, config=config)
-            samples.append(s)
-            return s
+        def direct(sample):
+            if m["type"] == "name":
+                return np.asarray(getattr(sample, m["name"])(**kwargs))   # the metric `name` of that object
+            return np.asarray(metric(sample, **kwargs))
 
-        obj.bootstrap_sample = rec_sample
+        def run(target, which):
+            counter, cfg = make_config()
+            samples, cfg_bad = [], []
+
+            def same_config(config):
+                # equal as dataclasses, or differing only by "dynamic" already resolved the way the object resolves it
+                if config == cfg:
+                    return True
+                try:
+                    import dataclasses
+                    return dataclasses.replace(cfg, sampling_method=type(target)._sampling_method(target, cfg)) == config
+                except Exception:
+                    return False
+
+            def rec_sample(config):
+                if not same_config(config):
+                    cfg_bad.append(repr(config)[:300])
+                s_ = type(target).bootstrap_sample(target, config=config)
+                samples.append(s_)
+                return s_
+
+            target.bootstrap_sample = rec_sample
+            if sp["type"] == "builtin":
+                np.random.seed(sp["seed"])
+            try:
+                if which == "metric":
+                    res = target.bootstrap_metric(metric, config=cfg, **kwargs)
+                else:
+                    res = target.bootstrap_ci(metric, alpha=fl(case["alpha"]), config=cfg, **kwargs)
+            finally:
+                del target.bootstrap_sample
+            return res, samples, (counter.calls if counter is not None else None), cfg_bad, repr(cfg)[:300]
+
+        out = {}
+        # what the configured sampler itself does on this object (same seed): does it raise? which samples does it give?
         if sp["type"] == "builtin":
+            _, cfg0 = make_config()
             np.random.seed(sp["seed"])
+            try:
+                replay = [direct(type(obj).bootstrap_sample(obj, config=cfg0)) for _ in range(case["nb_samples"])]
+                out["replay"] = [flat(d) for d in replay]
+            except Exception as ex:
+                out["sampler_err"] = type(ex).__name__
+                out["sampler_msg"] = str(ex)[:200]
+        hat = direct(make_obj())          # the metric of a fresh equal object
+        out["hat"] = flat(hat)
+        out["hat_shape"] = list(hat.shape)
         try:
-            if which == "metric":
-                out = obj.bootstrap_metric(metric, config=cfg, **kwargs)
-            else:
-                out = obj.bootstrap_ci(metric, alpha=fl(case["alpha"]), config=cfg, **kwargs)
+            rows, samples, ncalls, cfg_bad, cfg_repr = run(obj, "metric")
+        except Exception as ex:
+            out["metric_err"] = type(ex).__name__
+            out["metric_msg"] = str(ex)[:200]
+            return out
+        rows = np.asarray(rows)
+        out.update({"rows": flat(rows), "rows_shape": list(rows.shape), "rows_dtype": str(rows.dtype), "ncalls": ncalls,
+                    "nsamples_recorded": len(samples), "cfg_bad": cfg_bad, "cfg": cfg_repr,
+                    "sample_types": sorted(set(type(s_).__name__ for s_ in samples))})
+        dirs = [direct(s_) for s_ in samples]
+        out["direct"] = [flat(d) for d in dirs]
+        out["direct_shape"] = [list(d.shape) for d in dirs]
+
+        # bootstrap_ci, with utils.bootstrap_ci and scipy.stats.norm observed (pass-through)
+        norm = scipy.stats.norm
+        orig_ppf, orig_cdf, orig_bci = norm.ppf, norm.cdf, U.bootstrap_ci
+        rec = {"ppf": [], "cdf": [], "utils": []}
+
+        def ppf(x, *a, **k):
+            r = orig_ppf(x, *a, **k)
+            rec["ppf"].append([flat(x), flat(r)])
+            return r
+
+        def cdf(x, *a, **k):
+            r = orig_cdf(x, *a, **k)
+            rec["cdf"].append([flat(x), flat(r)])
+            return r
+
+        def bci(*a, **k):
+            r = orig_bci(*a, **k)
+            entry = {"nargs": len(a), "keys": sorted(k)}
+            if "theta" in k:
+                th = np.asarray(k["theta"])
+                entry["theta"], entry["theta_shape"] = flat(th), list(th.shape)
+            if k.get("theta_hat") is not None:
+                hh = np.asarray(k["theta_hat"])
+                entry["theta_hat"], entry["theta_hat_shape"] = flat(hh), list(hh.shape)
+            if "alpha" in k:
+                entry["alpha"] = enc(float(k["alpha"]))
+            if "method" in k:
+                entry["method"] = str(k["method"])
+            entry["ret"] = flat(r)
+            rec["utils"].append(entry)
+            return r
+
+        norm.ppf, norm.cdf, U.bootstrap_ci = ppf, cdf, bci
+        try:
+            ci, _, ci_calls, ci_cfg_bad, _ = run(obj, "ci")
+        except Exception as ex:   # reported to the oracle together with the rows
+            out["ci_err"] = type(ex).__name__
+            out["ci_msg"] = str(ex)[:200]
+            return out
         finally:
-            del obj.bootstrap_sample
-        return out, samples, (counter.calls if counter is not None else None)
-
-    rows, samples, ncalls = run("metric")
-    rows = np.asarray(rows)
-    out = {"rows": flat(rows), "rows_shape": list(rows.shape), "rows_dtype": str(rows.dtype), "ncalls": ncalls,
-           "nsamples_recorded": len(samples),
-           "sample_types": sorted(set(type(s).__name__ for s in samples))}
-    dirs = [direct(s) for s in samples]
-    out["direct"] = [flat(d) for d in dirs]
-    out["direct_shape"] = [list(d.shape) for d in dirs]
-    hat = direct(obj)
-    out["hat"] = flat(hat)
-    out["hat_shape"] = list(hat.shape)
-
-    # bootstrap_ci, with utils.bootstrap_ci and scipy.stats.norm observed (pass-through)
-    norm = scipy.stats.norm
-    orig_ppf, orig_cdf, orig_bci = norm.ppf, norm.cdf, U.bootstrap_ci
-    rec = {"ppf": [], "cdf": [], "utils": []}
-
-    def ppf(x, *a, **k):
-        r = orig_ppf(x, *a, **k)
-        rec["ppf"].append([flat(x), flat(r)])
-        return r
-
-    def cdf(x, *a, **k):
-        r = orig_cdf(x, *a, **k)
-        rec["cdf"].append([flat(x), flat(r)])
-        return r
-
-    def bci(*a, **k):
-        r = orig_bci(*a, **k)
-        entry = {"nargs": len(a), "keys": sorted(k)}
-        if "theta" in k:
-            th = np.asarray(k["theta"])
-            entry["theta"], entry["theta_shape"] = flat(th), list(th.shape)
-        if k.get("theta_hat") is not None:
-            hh = np.asarray(k["theta_hat"])
-            entry["theta_hat"], entry["theta_hat_shape"] = flat(hh), list(hh.shape)
-        if "alpha" in k:
-            entry["alpha"] = enc(float(k["alpha"]))
-        if "method" in k:
-            entry["method"] = str(k["method"])
-        entry["ret"] = flat(r)
-        rec["utils"].append(entry)
-        return r
-
-    norm.ppf, norm.cdf, U.bootstrap_ci = ppf, cdf, bci
-    try:
-        ci, ci_samples, ci_calls = run("ci")
-    except Exception as ex:   # reported to the oracle together with the rows
-        out["ci_err"] = type(ex).__name__
-        out["ci_msg"] = str(ex)[:200]
+            del norm.ppf
+            del norm.cdf
+            U.bootstrap_ci = orig_bci
+        ci = np.asarray(ci)
+        out.update({"ci": flat(ci), "ci_shape": list(ci.shape), "ci_ncalls": ci_calls, "ppf": rec["ppf"], "cdf": rec["cdf"],
+                    "utils": rec["utils"], "ci_cfg_bad": ci_cfg_bad})
+        if full:
+            # the same calls again on the same object (same seed for built-in samplers, fresh counter for custom ones)
+            rows_b, _, _, _, _ = run(obj, "metric")
+            ci_b, _, _, _, _ = run(obj, "ci")
+            out["rows_b"] = flat(rows_b)
+            out["ci_b"] = flat(ci_b)
+        # ... and on a fresh equal object: results must not depend on the object's call history
+        fresh = make_obj()
+        rows_f, _, _, _, _ = run(fresh, "metric")
+        ci_f, _, _, _, _ = run(make_obj(), "ci")
+        out["rows_fresh"] = flat(rows_f)
+        out["ci_fresh"] = flat(ci_f)
         return out
-    finally:
-        del norm.ppf
-        del norm.cdf
-        U.bootstrap_ci = orig_bci
-    ci = np.asarray(ci)
-    out.update({"ci": flat(ci), "ci_shape": list(ci.shape), "ci_ncalls": ci_calls, "ppf": rec["ppf"], "cdf": rec["cdf"],
-                "utils": rec["utils"]})
-    # the same calls again (same seed for built-in samplers, fresh counter for custom ones)
-    rows_b, _, _ = run("metric")
-    ci_b, _, _ = run("ci")
-    out["rows_b"] = flat(rows_b)
-    out["ci_b"] = flat(ci_b)
+
+    obj = make_obj()
+    out = session(obj, m["kwargs"], True)
+    more = []
+    for kwd in case.get("more_kwargs", []):
+        more.append(session(obj, kwd, False))      # SAME object: a history of calls
+    out["more"] = more
     return out
 
 
@@ -405,7 +482,7 @@ def _c13_view(case, r):
 
 
 def coq_term(case, res):
-    if "ok" not in res:
+    if "ok" not in res or "metric_err" in res["ok"]:
         return None
     r = res["ok"]
     parts = []
@@ -457,8 +534,35 @@ def oracle(case, res):
             return []
         return [("C14/exception", f"bootstrap_metric/bootstrap_ci raised {res.get('err')}: {res.get('msg')}")]
     r = res["ok"]
+    fails = list(_oracle_one(case, r))
+    # a history of calls on ONE object: same metric and kwarg names, other values; every call is judged on its own
+    for i, (kwd, ri) in enumerate(zip(case.get("more_kwargs", []), r.get("more", []))):
+        case_i = dict(case, metric=dict(case["metric"], kwargs=kwd))
+        for kind, msg in _oracle_one(case_i, ri):
+            fails.append((kind.replace("C14/", "C14/history/", 1),
+                          f"call {i + 2} on the same object (kwargs {kwd}, after {i + 1} earlier call(s) with other values): {msg}"))
+    return fails
+
+
+def _oracle_one(case, r):
+    sp = case["sampler"]
     fails = []
     n = case["nb_samples"]
+    # --- the configured sampler itself raises on this object (e.g. smoothing on GroupScores): so must bootstrap_metric
+    if r.get("sampler_err"):
+        if r.get("metric_err") == r["sampler_err"]:
+            return []
+        return [("C14/config/sampler-raises",
+                 f"bootstrap_sample(config) raises {r['sampler_err']} ({r.get('sampler_msg')}) for the caller's config, but "
+                 f"bootstrap_metric {'returned rows' if 'metric_err' not in r else 'raised ' + r['metric_err']}: the rows do not come "
+                 "from the configured sampler")]
+    if "metric_err" in r:
+        return [("C14/exception", f"bootstrap_metric raised {r['metric_err']}: {r.get('metric_msg')}")]
+    # --- every bootstrap_sample call receives a config equal to the caller's (up to "dynamic" resolved as the object resolves it)
+    for key, what in (("cfg_bad", "bootstrap_metric"), ("ci_cfg_bad", "bootstrap_ci")):
+        if r.get(key):
+            fails.append(("C14/config/forwarded", f"{what} called bootstrap_sample with {r[key][0]}, the caller's config is {r.get('cfg')}"))
+            break
     mshape = r["hat_shape"]
     size = 1
     for x in mshape:
@@ -483,6 +587,15 @@ def oracle(case, res):
             fails.append(("C14/rows/attribution", f"row {j} = {[C13._num(v) for v in row]} but the metric of the {j}-th sample is "
                                                   f"{[C13._num(v) for v in r['direct'][j]]}"))
             break
+    # row j = metric of the j-th sample the configured sampler gives on this object under the same seed
+    if "replay" in r and len(r["replay"]) == n:
+        for j in range(n):
+            row = r["rows"][j * size:(j + 1) * size]
+            if len(r["replay"][j]) != size or not all(_same(a, b) for a, b in zip(row, r["replay"][j])):
+                fails.append(("C14/rows/configured-sampler",
+                              f"row {j} = {[C13._num(v) for v in row]} but the metric of the {j}-th sample drawn with "
+                              f"bootstrap_sample(config) under the same seed is {[C13._num(v) for v in r['replay'][j]]} (config {r.get('cfg')})"))
+                break
     # independent exact evaluation for the plain rates under the shifting sampler
     exp = _expected_rows(case)
     if exp is not None and len(exp) == n and size == len(exp[0]):
@@ -548,11 +661,13 @@ def oracle(case, res):
                 fails.append(("C14/identity", f"identity sampler: component {j} interval ({C13._num(ci[2 * j])}, {C13._num(ci[2 * j + 1])}) "
                                               f"is not the point estimate {C13._num(h)}"))
                 break
-    # --- reproducibility: same seed (same sampler history) => identical results
-    if not all(_same(a, b) for a, b in zip(r["rows"], r["rows_b"])) or len(r["rows"]) != len(r["rows_b"]):
-        fails.append(("C14/reproducible", "bootstrap_metric differs between two runs with the same seed / sampler history"))
-    if not all(_same(a, b) for a, b in zip(r["ci"], r["ci_b"])) or len(r["ci"]) != len(r["ci_b"]):
-        fails.append(("C14/reproducible", "bootstrap_ci differs between two runs with the same seed / sampler history"))
+    # --- reproducibility: same seed (same sampler history) => identical results, on the same and on a fresh equal object
+    for key_r, key_c, what in (("rows_b", "ci_b", "two runs on the same object"), ("rows_fresh", "ci_fresh", "this object and a fresh equal object")):
+        if key_r in r and (not all(_same(a, b) for a, b in zip(r["rows"], r[key_r])) or len(r["rows"]) != len(r[key_r])):
+            fails.append(("C14/reproducible", f"bootstrap_metric differs between {what} with the same seed / sampler history"))
+        if key_c in r and (not all(_same(a, b) for a, b in zip(r["ci"], r[key_c])) or len(r["ci"]) != len(r[key_c])):
+            fails.append(("C14/reproducible", f"bootstrap_ci differs between {what} with the same seed / sampler history: "
+                                              f"{[C13._num(v) for v in r['ci']]} vs {[C13._num(v) for v in r[key_c]]}"))
     return fails
 
 
@@ -560,6 +675,8 @@ def nontrivial(case, res):
     if "ok" not in res:
         return False
     r = res["ok"]
+    if "rows" not in r:
+        return False
     n = case["nb_samples"]
     if case["sampler"]["type"] == "identity":
         return n >= 2
@@ -570,7 +687,8 @@ def nontrivial(case, res):
 
 def distribution(cases, results):
     d = {"n": len(cases), "kind": {}, "metric": {}, "sampler": {}, "method": {}, "metric_rank": {}, "nb_samples": {},
-         "int_dtype_rows": 0, "subclass_sample_types": 0, "errors": 0, "model_rows_checked": 0}
+         "int_dtype_rows": 0, "subclass_sample_types": 0, "errors": 0, "model_rows_checked": 0,
+         "smoothing": 0, "smoothing_on_group_raises": 0, "history_cases": 0, "history_extra_calls": 0, "history_shape_change": 0}
     for c, r in zip(cases, results):
         d["kind"][c["kind"]] = d["kind"].get(c["kind"], 0) + 1
         m = c["metric"]
@@ -581,8 +699,19 @@ def distribution(cases, results):
         d["sampler"][key] = d["sampler"].get(key, 0) + 1
         d["method"][c["bootstrap_method"]] = d["method"].get(c["bootstrap_method"], 0) + 1
         d["nb_samples"][str(c["nb_samples"])] = d["nb_samples"].get(str(c["nb_samples"]), 0) + 1
+        if sp.get("smoothing"):
+            d["smoothing"] += 1
+        if c.get("more_kwargs"):
+            d["history_cases"] += 1
+            d["history_extra_calls"] += len(c["more_kwargs"])
+            if any(isinstance(kw.get("threshold"), list) != isinstance(m["kwargs"].get("threshold"), list) for kw in c["more_kwargs"]):
+                d["history_shape_change"] += 1
         if "ok" not in r:
             d["errors"] += 1
+            continue
+        if "rows" not in r["ok"]:
+            if r["ok"].get("sampler_err"):
+                d["smoothing_on_group_raises"] += 1
             continue
         k = str(len(r["ok"]["hat_shape"]))
         d["metric_rank"][k] = d["metric_rank"].get(k, 0) + 1
